@@ -38,7 +38,7 @@ Instr == <<
   T("allocate", "instr", "ALLOCATE_GLOBAL_ADDRESS"), T("assert_empty", "instr", "ASSERT_WORKTOP_IS_EMPTY"),
   T("pop_auth", "instr", "POP_FROM_AUTH_ZONE"), T("clone_proof", "instr", "CLONE_PROOF"),
   T("set_metadata", "instr", "SET_METADATA"), T("assert_only", "instr", "ASSERT_WORKTOP_RESOURCES_ONLY"),
-  T("lower_instr", "instr", "call_method") >>
+  T("recall_from_vault", "instr", "RECALL_FROM_VAULT"), T("lower_instr", "instr", "call_method") >>
 
 Types == <<
   T("Enum", "type", "Enum"), T("Array", "type", "Array"), T("Tuple", "type", "Tuple"), T("Map", "type", "Map"),
@@ -132,6 +132,7 @@ Phrase == <<
   Ph("map_ok", "Map<U8, String>(1u8 => \"x\")"), Ph("map_one", "Map<U8>()"), Ph("map_noarrow", "Map<U8, U8>(1u8, 2u8)"),
   Ph("tuple_ok", "Tuple(1u8, \"x\")"), Ph("tuple_open", "Tuple(1u8,"), Ph("tuple_trailing", "Tuple(1u8,)"),
   Ph("some_ok", "Some(1u8)"), Ph("some_empty", "Some()"), Ph("nested", "Tuple(Some(Enum<1u8>(Array<Tuple>(Tuple()))))"),
+  Ph("array_intent_kind", "Array<Intent>()"), Ph("array_named_intent_kind", "Array<NamedIntent>()"),
   Ph("f_name", "\"f\""), Ph("deep", "Some(Some(Some(Some(Some(Some(Some(Some(Some(Some(Some(Some(Some(Some(Some(Some(Some(Some(Some(Some(Some(Some(Some(Some(1u8))))))))))))))))))))))))")
   >>
 
@@ -172,7 +173,8 @@ Templates == <<
   <<"pop_auth", "proof_name", "semi">>,
   <<"set_metadata", "addr_ok", "str_abc", "enum_ok", "semi">>,
   <<"create_validator", "Tuple", "lpar", "u8_0", "rpar", "semi">>,
-  <<"create_validator", "Enum", "lt", "u8_0", "gt", "lpar">> >>
+  <<"create_validator", "Enum", "lt", "u8_0", "gt", "lpar">>,
+  <<"recall_from_vault", "addr_ok", "dec_ok", "semi">> >>
 Names == {Alphabet[i].n : i \in 1..NA}
 IdxOf == [n \in Names |-> CHOOSE i \in 1..NA : Alphabet[i].n = n]
 \* (constant definitions without parameters are evaluated once by TLC; operators with
@@ -241,6 +243,14 @@ FixedLayouts == {
   [n |-> 12, at |-> 7, term |-> "CRLF", last |-> TRUE, spread |-> FALSE, fill |-> "instr"],
   [n |-> 12, at |-> 12, term |-> "CRLF", last |-> FALSE, spread |-> TRUE, fill |-> "uni"] }
 
+\* Every single token (every error class of the alphabet on its own) and every template edit also
+\* gets the layouts next to the snippet window limit (payload on line 6 = last line shown in
+\* full, 7 = first line with skipped prefix) and, for single tokens, the full product
+\* payload line {1, 6, 7, 12} x terminator style x terminated / unterminated last line.
+ExtraFixed == {
+  [n |-> 12, at |-> 6, term |-> "CRLF", last |-> TRUE, spread |-> FALSE, fill |-> "instr"],
+  [n |-> 6, at |-> 6, term |-> "MIX3", last |-> FALSE, spread |-> FALSE, fill |-> "comment"] }
+BoundaryLayouts == {l \in AllLayouts : l.n = 12 /\ ~l.spread /\ l.fill = "instr"}
 LayoutsFor(s, r) == FixedLayouts \cup Rotating(s, r)
 Case(s, l) == Render(SeqTexts(s), l) @@ [names |-> [j \in 1..Len(s) |-> Alphabet[s[j]].n]]
 
